@@ -839,15 +839,20 @@ def _check_parser_validation(ctx, res: RuleResult):
              and ctx.cg.resolve_call(tg, x, ctx.cg.local_types(tg), set(params_of(fn))).target.name == "graph_from_molecule"]
     if not build:
         raise AnalysisError("to_graph no longer calls graph_from_molecule")
-    bn = cfg.stmt_node_containing(build[0])
-    ok = False
+    val_loops = []
     for lp in [n for n in own_walk(fn) if isinstance(n, ast.For)]:
         if "_bonds" in norm(lp.iter):
             tvars = [x.id for x in ast.walk(lp.target) if isinstance(x, ast.Name)]
             validated = {v for v in tvars if any(isinstance(c, ast.Call) and is_validation(c, v) and c in [s.value for s in lp.body if isinstance(s, ast.Expr)] for c in ast.walk(lp))}
-            ln = cfg.node_of(lp)
-            if len(tvars) == 2 and validated == set(tvars) and ln is not None and cfg.dominates(ln, bn):
-                ok = True
-    res.inst(tg.fq, "both endpoints of every bond validated before the graph is built", "ok" if ok else "fail")
-    if not ok:
-        res.fail(Finding("R-ORDERING", tg.module.rel, tg.qualname, short(build[0]), "a bond endpoint can reach graph construction unvalidated: a dangling index silently adds an atom", line=build[0].lineno))
+            if len(tvars) == 2 and validated == set(tvars) and cfg.node_of(lp) is not None:
+                val_loops.append(cfg.node_of(lp))
+    attr_loops = [cfg.node_of(lp) for lp in own_walk(fn) if isinstance(lp, ast.For) and "_node_attributes" in norm(lp.iter)
+                  and any(isinstance(c, ast.Call) and isinstance(c.func, ast.Attribute) and c.func.attr in validators for c in ast.walk(lp))]
+    exits = [n for n in own_walk(fn) if isinstance(n, ast.Return)] + [b for b in build if not any(b in ast.walk(r) for r in own_walk(fn) if isinstance(r, ast.Return))]
+    for ex in exits:
+        en = cfg.stmt_node_containing(ex) if not isinstance(ex, ast.stmt) else cfg.node_of(ex)
+        ok = any(cfg.dominates(v, en) for v in val_loops) and any(a is not None and cfg.dominates(a, en) for a in attr_loops)
+        res.inst(tg.fq, f"`{short(ex, 60)}`: all bond endpoints and attribute indices validated on every path to it", "ok" if ok else "fail")
+        if not ok:
+            res.fail(Finding("R-ORDERING", tg.module.rel, tg.qualname, norm(ex), "a graph can be returned without the bond endpoints / attribute indices having been checked against the atoms of the formula: "
+                             "a string with a dangling index is accepted (or silently altered) instead of being rejected", line=ex.lineno))
